@@ -432,6 +432,88 @@ def run_shard(params, rec):
                     do_resolve(guest, [cname + "_%d" % start], rng.choice([(fs_plain, "plain"), (fs_rel, "relbase")])[0],
                                "chain", rng.random() < 0.35, follow)
 
+        # ---------------- environment API on ONE FileSystem object: readlink / exists / open_ histories
+        # over a small pool of guest paths (repeats, follow and no-follow resolutions of the same string).
+        # Observation: the kernel's own name of the descriptor that was opened (/proc/self/fd) and the
+        # returned values, compared with a FRESH FileSystem's resolution of the same argument.
+        from miasm.os_dep.linux.environment import LinuxEnvironment_x86_64, FileDescriptorRegularFile, \
+            FileDescriptorDirectory
+
+        class Env(LinuxEnvironment_x86_64):
+            filesystem_base = base
+        for h in range(max(2, n // 60)):
+            env = Env()
+            fs = env.filesystem
+            pool = []
+            while len(pool) < 5:
+                if rng.random() < 0.6:
+                    pool.append(rng.choice(["/", "", "./"]) + rng.choice(interesting))
+                else:
+                    pool.append(gen_posix(rng, interesting, names, base)[0])
+            hist = []
+            for step in range(24):
+                guest = rng.choice(pool)
+                op = rng.choice(["readlink", "readlink", "exists", "open", "open", "open_nofollow"])
+                follow = op in ("exists", "open")
+                hist.append("%s(%r)" % (op, guest))
+                rec.ev()
+                rec.count("fn:environment_api")
+                rec.count("api:" + op)
+                try:
+                    want_path = FileSystem(base, None).resolve_path(guest, follow_link=follow)
+                except (AssertionError, RecursionError):
+                    want_path = None
+                kernel = got = want = None
+                try:
+                    if op == "readlink":
+                        got = fs.readlink(guest)
+                        if want_path is not None:
+                            want = os.readlink(want_path) if os.path.islink(want_path) else None
+                    elif op == "exists":
+                        got = fs.exists(guest)
+                        if want_path is not None:
+                            want = os.path.exists(want_path)
+                    else:
+                        flags = env.O_RDONLY
+                        if want_path is not None and os.path.isdir(want_path):
+                            flags |= env.O_DIRECTORY
+                        fd = fs.open_(guest, flags, follow_link=follow)
+                        if fd == -1:
+                            got = "ENOENT"
+                        else:
+                            fdesc = env.file_descriptors[fd]
+                            if isinstance(fdesc, FileDescriptorRegularFile):
+                                kernel = os.readlink("/proc/self/fd/%d" % fdesc.real_fd)
+                                os.close(fdesc.real_fd)
+                            elif isinstance(fdesc, FileDescriptorDirectory):
+                                kernel = os.path.realpath(fdesc.real_path)
+                            del env.file_descriptors[fd]
+                            got = kernel
+                            rec.count("api:opened")
+                        if want_path is not None:
+                            want = os.path.realpath(want_path) if os.path.exists(want_path) else "ENOENT"
+                except (AssertionError, RecursionError, RuntimeError):
+                    rec.count("api:refused_or_not_implemented")
+                    continue
+                except Exception as exc:
+                    rec.count("api:raised_%s" % type(exc).__name__)
+                    continue
+                if want_path is None:
+                    rec.count("api:fresh_resolution_refused")
+                    continue
+                rec.count("api:compared")
+                if len(hist) > 1 and any(x.endswith("(%r)" % guest) for x in hist[:-1]):
+                    rec.count("api:compared_on_a_path_used_before")
+                rec.distinct("api/%d/%s/%s" % (k, op, guest))
+                if got != want:
+                    rec.fail("environment API on a used FileSystem object reaches another host file than a fresh "
+                             "resolution of the same argument (%s)" % op.split("_")[0],
+                             "%s(%r) gives %r, a fresh FileSystem resolves the argument to %r (%r); history %s" % (
+                                 op, guest, to_text(got) if not isinstance(got, bool) else got,
+                                 to_text(want) if not isinstance(want, bool) else want,
+                                 to_text(want_path).replace(top, "<top>"), hist[-8:]),
+                             dict(layout=k, history=hist, guest=guest, op=op))
+                    break
         # ---------------- unix_to_sbpath / windows_to_sbpath
         old_base = osc.BASE_SB_PATH
         for spell in ("abs", "rel"):
@@ -479,7 +561,8 @@ def run_shard(params, rec):
 
 def floors(tier, counters, evaluations):
     miss = []
-    need = {"fn:resolve_path": 40000, "fn:unix_to_sbpath": 20000, "fn:windows_to_sbpath": 20000,
+    need = {"api:compared": 3000, "api:opened": 300, "api:compared_on_a_path_used_before": 1500,
+            "fn:resolve_path": 40000, "fn:unix_to_sbpath": 20000, "fn:windows_to_sbpath": 20000,
             "resolve_path:bytes": 10000, "resolve_path:str": 10000,
             "resolve_path:follow_link=False": 6000, "resolve_path:inside": 15000,
             "resolve_path:inside_and_exists": 5000, "resolve_path:inside_through_link": 200,
